@@ -13,7 +13,9 @@ from sqlcase import RL, ms
 TYPES = ["INT", "BIGINT", "SMALLINT", "BOOLEAN", "VARCHAR", "DOUBLE", "DECIMAL(12,3)", "DATE", "TIMESTAMP",
          "TIMESTAMPTZ", "INTERVAL", "BLOB"]
 STRS = ["a", "ab c", "x,y", "semi;colon", "pipe|d", "tab\there", 'dq"uote', "sq'uote", "line\nbreak", "cr\rhere",
-        " lead", "trail ", "NULL", "null", "\\N", "é✓", "0", "true", "a" * 200]
+        " lead", "trail ", "NULL", "null", "\\N", "é✓", "0", "true", "a" * 200,
+        # characters that mean something to CSV dialects other than the one written: comment, escape, BOM, type sniffing
+        "#", "#hash first", "x#y", "\\", "back\\slash", "a\\,b", "\ufeffbom", "=1+1", "-", "--", "1e5", "0x10", "\t", "~", "@"]
 
 
 def lit(rng, typ):
@@ -144,6 +146,10 @@ def run_case(args):
                         if p != q:
                             bad.add(types[i] + (":empty-string" if p == "" else ""))
             sig = "rows-differ:" + (",".join(sorted(bad)) if bad else f"count:{'header' if header else 'other'}")
+            # exactly one cell differs and it differs by a leading U+FEFF: the CSV reader took it for a byte-order mark
+            strip = lambda rows: ms([tuple(c[1:] if isinstance(c, str) and c.startswith("\ufeff") else c for c in r) for r in rows])
+            if len(a) == len(b) and strip(a) == strip(b) and sum(1 for r in a for c in r if isinstance(c, str) and c.startswith("\ufeff")) - sum(1 for r in b for c in r if isinstance(c, str) and c.startswith("\ufeff")) == 1:
+                sig = "rows-differ:leading-U+FEFF-of-the-file-read-as-byte-order-mark"
             res["violations"].append(dict(signature=sig, what=f"exported {len(a)} rows, imported {len(b)}; first diff {[(x, y) for x, y in zip(a, b) if x != y][:2]} [{tag}]"))
     except Exception as e:
         res["inconclusive"] = f"harness: {type(e).__name__}: {e}"
